@@ -365,3 +365,140 @@ def spec_nfa(spec):
     nfa.start = a
     nfa.accept = {b}
     return nfa
+
+
+# ----------------------------------------------------------------------------------------------
+# guard-set normalisation: the branch outcomes met between two events are a conjunction; their
+# order, the shape of the decision tree (if-chain vs match) and implied outcomes do not matter
+import re as _re
+
+_G = _re.compile(r"^(EQ|LT|BR|SW)\[(.*)\](=|!=)(.*)$")
+
+
+def is_guard(label):
+    return isinstance(label, str) and bool(_G.match(label)) and label.split("[", 1)[0] in ("EQ", "LT", "BR", "SW")
+
+
+def _split_top(s):
+    """split 'a,b' at the top-level comma"""
+    depth = 0
+    for i, ch in enumerate(s):
+        if ch in "([{<":
+            depth += 1
+        elif ch in ")]}>":
+            depth -= 1
+        elif ch == "," and depth == 0:
+            return s[:i], s[i + 1 :]
+    return s, None
+
+
+def guard_atoms(label):
+    """-> list of (kind, a, b, truth) atoms"""
+    m = _G.match(label)
+    kind, inner, op, val = m.group(1), m.group(2), m.group(3), m.group(4)
+    if kind == "SW":
+        vals = val.split("|")
+        if all(v.lstrip("-").isdigit() for v in vals):
+            if op == "=":
+                if len(vals) == 1:
+                    return [("EQ", inner, "K" + vals[0], True)]
+                return [("IN", inner, "|".join(sorted(vals)), True)]
+            return [("EQ", inner, "K" + v, False) for v in vals]
+        return [("SW", inner, op + val, True)]
+    truth = val == "1"
+    if kind == "BR":
+        return [("BR", inner, "", truth)]
+    a, b = _split_top(inner)
+    if kind == "EQ":
+        a, b = sorted([a, b], key=lambda x: (not (x.startswith("K") and x[1:].lstrip("-").isdigit()), x))
+        # constant first -> (variable, constant)
+        if a.startswith("K") and a[1:].lstrip("-").isdigit():
+            a, b = b, a
+        return [("EQ", a, b, truth)]
+    return [("LT", a, b, truth)]
+
+
+def normalise_guards(labels):
+    """frozenset of atoms, or None when contradictory"""
+    atoms = set()
+    for l in labels:
+        atoms.update(guard_atoms(l))
+    # contradictions
+    for (k, a, b, t) in atoms:
+        if (k, a, b, not t) in atoms:
+            return None
+    pos = {}
+    for (k, a, b, t) in atoms:
+        if k == "EQ" and t and b.startswith("K"):
+            if a in pos and pos[a] != b:
+                return None
+            pos[a] = b
+    out = set()
+    for (k, a, b, t) in atoms:
+        if k == "EQ" and not t and a in pos and b.startswith("K") and pos[a] != b:
+            continue  # implied by the positive equality
+        if k == "LT" and a in pos and b.startswith("K") and b[1:].lstrip("-").isdigit() and pos[a][1:].lstrip("-").isdigit():
+            if (int(pos[a][1:]) < int(b[1:])) != t:
+                return None
+            continue
+        out.add((k, a, b, t))
+    return tuple(sorted(out))
+
+
+def condense(nfa):
+    """new NFA whose transitions carry (normalised guard set, event); contradictory paths dropped"""
+    out = NFA()
+    out.start = ("C", nfa.start)
+    ACC = ("C", "$accept")
+    out.accept = {ACC}
+    work = [nfa.start]
+    done = set()
+    while work:
+        s = work.pop()
+        if s in done:
+            continue
+        done.add(s)
+        results = set()
+        stack = [(s, frozenset())]
+        seen_sg = {(s, frozenset())}
+        budget = 400000
+        while stack:
+            budget -= 1
+            if budget < 0:
+                raise RuntimeError("guard exploration too large")
+            x, g = stack.pop()
+            if x in nfa.accept:
+                results.add((g, "accept", None, None))
+            for (l, y) in nfa.trans.get(x, ()):
+                if l is None:
+                    g2 = g
+                elif is_guard(l):
+                    g2 = g | {l}
+                    if normalise_guards(g2) is None:
+                        continue
+                else:
+                    results.add((g, "event", l, y))
+                    continue
+                if (y, g2) not in seen_sg:
+                    seen_sg.add((y, g2))
+                    stack.append((y, g2))
+        for g, kind, l, y in results:
+            ng = normalise_guards(g)
+            if ng is None:
+                continue
+            gl = "&".join("%s%s(%s%s)" % ("" if t else "!", k, a, ("," + b) if b else "") for k, a, b, t in ng)
+            if kind == "accept":
+                out.add(("C", s), "<%s> $" % gl, ACC)
+            else:
+                out.add(("C", s), "<%s> %s" % (gl, l), ("C", y), nfa.info.get((x, l)) if False else None)
+                work.append(y)
+    # keep locations for diagnostics
+    for (st, l), w in nfa.info.items():
+        pass
+    out.info_src = nfa.info
+    return out
+
+
+def normalised_dfa(dfa_or_nfa):
+    nfa = dfa_or_nfa.nfa if isinstance(dfa_or_nfa, DFA) else dfa_or_nfa
+    return DFA(condense(nfa))
